@@ -11,16 +11,17 @@ RULE = ("One TLC state per row of the reference table spec/ref/dist.ndjson (100 
         "the support, on its end points, outside on both sides incl. negative and too-large counts, far tails; ~1250 "
         "points) with the table value (relative 1e-9, measured worst 2.5e-12), closed end points of the documented "
         "support judged like interior points, the same density / mean / variance on objects moved to the row's "
-        "parameters by update and by the setters from every other row of the kind, exactly 0, ln_pdf = -inf and no "
-        "panic outside the support, the point 0 written as -0.0 gives what 0 gives, discrete uniform laws on supports "
-        "of 2^32 .. 2^62 points (mass 1/N, mean, variance (N^2-1)/12), ln_pdf = ln(pdf) at every end point of the "
-        "support, exact rational masses, ln_pdf = ln(pdf), Normal cdf within 1.5e-7, also for the same law in units of "
-        "2^-60 and 2^40 (cdf unchanged, density times s); total mass and the first two moments of the implementation's "
-        "OWN density/mass function by summation / graded Gauss-Legendre quadrature against its mean()/var() (bounded or"
-        " exponential-tail cases; T and Pareto with dof/alpha > 4 at 1e-5); MVN (incl. points with |z|^2 = 1600 and "
-        "beyond, where the density underflows while the log-density is an ordinary number): pdf(mu) = (2 "
-        "pi)^(-d/2)/|det L|, pdf(x)/pdf(mu) = exp(-q/2), ln_pdf, mean, var, dimension 1 = Normal. Case class = (law, "
-        "observable, position class / regime).")
+        "parameters by update and by the setters from every other row of the kind, the density of another row's object "
+        "evaluated alternately with this row's at the same points equals its sweep alone (taken in a thread of its "
+        "own), exactly 0, ln_pdf = -inf and no panic outside the support, the point 0 written as -0.0 gives what 0 "
+        "gives, discrete uniform laws on supports of 2^32 .. 2^62 points (mass 1/N, mean, variance (N^2-1)/12), ln_pdf "
+        "= ln(pdf) at every end point of the support, exact rational masses, ln_pdf = ln(pdf), Normal cdf within "
+        "1.5e-7, also for the same law in units of 2^-60 and 2^40 (cdf unchanged, density times s); total mass and the "
+        "first two moments of the implementation's OWN density/mass function by summation / graded Gauss-Legendre "
+        "quadrature against its mean()/var() (bounded or exponential-tail cases; T and Pareto with dof/alpha > 4 at "
+        "1e-5); MVN (incl. points with |z|^2 = 1600 and beyond, where the density underflows while the log-density is "
+        "an ordinary number): pdf(mu) = (2 pi)^(-d/2)/|det L|, pdf(x)/pdf(mu) = exp(-q/2), ln_pdf, mean, var, dimension"
+        " 1 = Normal. Case class = (law, observable, position class / regime).")
 ASSUMPTIONS = ["irrational density values come from mpmath (tools/gen_disttables.py, 40 digits; committed table): the spec decides support membership, closed-form moments and exact rational masses",
                "values at the end points of a continuous support are a convention and only required to be finite and non-negative",
                "quadrature is used only where the integrand is bounded with light tails, so integration error cannot cause an alarm (tolerances 1e-7 / 1e-5 vs measured < 1e-9)"]
